@@ -46,6 +46,11 @@ SINGLES = [
     "r:-1,0,8:0",                      # -1/(2 sqrt 2)
 ]
 POOL = [t for g in GROUPS for t in g] + SINGLES
+# one value per kind and per shape value.c dispatches on (point / degree-1 / proper algebraic; 0; +-inf; big)
+CORE = ["z:0", "z:3", "z:-3", "z:1180591620717411303425", "d:1/1", "d:-7/2", "d:3/0", "d:1180591620717411303425/70",
+        "q:1/3", "q:-22/7", "q:3/1", "q:1/2", "q:0/1",
+        "a:-2,0,1:1/0:2/0", "a:-2,0,1:-2/0:-1/0", "a:-3,0,1:1/0:2/0", "a:-1,2:0/0:1/0", "a:6,-2,-3,1:5/1:7/1",
+        "a:-1,3:0/0:1/0", "a:2,-6,-1,3:0/0:1/0", "r:0,1:0", "a:22,7:-4/0:-3/0", "+inf", "-inf"]
 QS = ["q:0/1", "q:1/2", "q:1/3", "q:-1/3", "q:3/1", "q:-3/1", "q:3/4", "q:7/5", "q:99/70", "q:17/12", "q:-22/7",
       "q:141421356237/100000000000", "q:707106781187/500000000000", "q:1180591620717411303425/1180591620717411303424", "q:7/3"]
 PRECS = ["0", "1", "2", "3", "5", "8", "16", "40"]
@@ -189,19 +194,27 @@ def generate(rng, tier):
         for n in (0, 1, 2, 3, 5) if not is_alg(a) else (0, 1, 2, 3):
             if is_alg(a) and n == 3 and not keep(0.3):
                 continue
+            if kind(a) == "inf" and n == 0:
+                continue        # inf^0 is outside the documented domain
             cases.append("pow %s %d %s" % (a, n, used_for(rng, [a])))
-    # --- binary arithmetic: all ordered pairs where at most one side is a proper algebraic number; algebraic x
-    #     algebraic sampled (the reference resultants dominate the cost)
+    # --- binary arithmetic: ALL ordered pairs of the core pool (one value per kind and shape) for every operation,
+    #     plus sampled pairs of the whole pool (thorough: all pairs with at most one proper algebraic side, 40% of
+    #     the algebraic x algebraic ones - the reference resultants dominate the cost)
     for op in ("add", "sub", "mul", "div"):
+        for a in CORE:
+            for b in CORE:
+                cases.append("%s %s %s %s" % (op, a, b, used_for(rng, [a, b])))
         for a in pool:
             for b in pool:
+                if a in CORE and b in CORE:
+                    continue
                 both = is_alg(a) and is_alg(b)
                 if both:
-                    p = 0.05
+                    p = 0.03
                 elif is_alg(a) or is_alg(b):
-                    p = 0.35
+                    p = 0.12
                 else:
-                    p = 0.6
+                    p = 0.2
                 if (thorough and (not both or rng.random() < 0.4)) or (not thorough and rng.random() < p):
                     cases.append("%s %s %s %s" % (op, a, b, used_for(rng, [a, b])))
     # --- the in-between picker: every strictness combination
